@@ -205,13 +205,13 @@ def check_limit_passthrough(ctx, db):
 
 def run(ctx):
     db = ctx.db
-    check_fracture(ctx, db)
-    check_slice(ctx, db)
-    check_call_sites(ctx, db)
-    check_limit_passthrough(ctx, db)
-    C05.check_tree(ctx, db)
+    ctx.attempt(check_fracture, ctx, db)
+    ctx.attempt(check_slice, ctx, db)
+    ctx.attempt(check_call_sites, ctx, db)
+    ctx.attempt(check_limit_passthrough, ctx, db)
+    ctx.attempt(C05.check_tree, ctx, db)
     from . import C20
-    C20.check_heap(ctx, db)   # fracture sorts the vertex coordinates that become cut positions
+    ctx.attempt(C20.check_heap, ctx, db)# fracture sorts the vertex coordinates that become cut positions
 
 
 MANIFEST = dict(
